@@ -26,3 +26,11 @@ func VerifTombIDs(r *TaskRunner) []string {
 	}
 	return ids
 }
+
+// VerifSomeBlocked returns r.someBlocked (set by Ensure when a predicate blocked a candidate).
+// The caller must not hold the state lock.
+func VerifSomeBlocked(r *TaskRunner) bool {
+	r.mu.Lock()
+	defer r.mu.Unlock()
+	return r.someBlocked
+}
